@@ -55,7 +55,16 @@ func NewServer() *Server {
 }
 
 func (s *Server) reinitCLI(cfg cliSettings) {
-	s.cliClient = cli.NewClient(cfg.Path, cfg.Timeout)
+	client := cli.NewClient(cfg.Path, cfg.Timeout)
+	s.settingsMu.Lock()
+	s.cliClient = client
+	s.settingsMu.Unlock()
+}
+
+func (s *Server) getCLIClient() *cli.Client {
+	s.settingsMu.RLock()
+	defer s.settingsMu.RUnlock()
+	return s.cliClient
 }
 
 func (s *Server) SetClient(client protocol.Client) {
